@@ -192,7 +192,7 @@ def gen_case(seed):
         'stderr' : g_fname(rnd),
         'cores_per_rank': rnd.randint(1, 4),
         'threading': rnd.choice(['', '', 'OpenMP']),
-        'gpus_per_rank': rnd.choice([0, 0, 1, 1, 2, 0.5]),
+        'gpus_per_rank': rnd.choice([0, 0, 1, 1, 2, 0.5, 0.25, 0.75, 0.125]),
         'gpu_type': rnd.choice(['CUDA', 'CUDA', '', 'ROCm']),
         'gpu_base': rnd.randint(0, 5),
         'exit'   : [rnd.choice([0, 0, 0, 1, 2, 3, 42, 127, 255]) for _ in range(3)],
@@ -376,7 +376,7 @@ def normalise(case):
         c['before'] = [b for b in (c.get('before') or []) if b in ('export', 'fail', 'rank')][:2]
         c['cores_per_rank'] = max(1, int(c.get('cores_per_rank', 1)))
         c['gpu_base'] = max(0, int(c.get('gpu_base', 0)))
-        if c.get('gpus_per_rank') not in (0, 1, 2, 0.5):
+        if c.get('gpus_per_rank') not in (0, 1, 2, 0.5, 0.25, 0.75, 0.125):
             c['gpus_per_rank'] = 0
         return c
     except Exception:
@@ -470,7 +470,7 @@ def _slots(case, n_ranks):
         if gpr >= 1:
             g = [{'index': base + r * int(gpr) + i, 'occupation': 1.0} for i in range(int(gpr))]
         elif gpr > 0:
-            g = [{'index': base + r // 2, 'occupation': gpr}]      # two ranks share one GPU
+            g = [{'index': base + r // max(1, int(1 / gpr)), 'occupation': gpr}]   # ranks share one GPU
         else:
             g = []
         gpus_of.append([x['index'] for x in g])
@@ -566,7 +566,7 @@ def _run(case, eng, cdir, res):
                     ('per_rank_entries', per_rank), ('pre_fail', any(pre_fails)),
                     ('post_fail', any(post_fails)), ('sync', sync),
                     ('gpu_cuda', bool(case['gpus_per_rank']) and case['gpu_type'] == 'CUDA'),
-                    ('gpu_shared', case['gpus_per_rank'] == 0.5),
+                    ('gpu_shared', 0 < case['gpus_per_rank'] < 1),
                     ('openmp', case['threading'] == 'OpenMP'),
                     ('exit_nonzero', any(codes)),
                     ('stdio_custom', bool(io_path)),
